@@ -80,6 +80,8 @@ def grid_spec(draw, types=GRID_TYPES, max_refine=2, dimension=1):
 
 
 def spec_h(model_spec, gspec) -> float:
+    if gspec.get("h_abs"):  # a step given in absolute terms (very coarse grids)
+        return float(gspec["h_abs"])
     return float(f"{gspec['h_rel'] * model_scale(model_spec):.5g}")
 
 
